@@ -106,6 +106,10 @@ func c17Exec(c *Sexp) Outcome {
 	if fail == "" && !strings.Contains(obs.viaParse, fmt.Sprintf("calls=%d", obs.calls)) {
 		fail = fmt.Sprintf("family %s, n=%d: call count differs between two runs: %d vs %s", name, n, obs.calls, obs.viaParse)
 	}
+	// ... and so must a parse on a graph that has parsed another input before (same tree, same call count)
+	if fail == "" {
+		fail = reuseOracle(obs)
+	}
 	ratio := 0.0
 	if fail == "" && n >= 8 {
 		for _, f := range families() {
